@@ -1,192 +1,14 @@
-import SSV.Proofs.RelayLifeInv3d
+import SSV.Proofs.RelayLifeInv3b_p0
+import SSV.Proofs.RelayLifeInv3b_p1
+import SSV.Proofs.RelayLifeInv3b_p2
+import SSV.Proofs.RelayLifeInv3b_p3
+import SSV.Proofs.RelayLifeInv3b_p4
+import SSV.Proofs.RelayLifeInv3b_p5
+import SSV.Proofs.RelayLifeInv3b_p6
+import SSV.Proofs.RelayLifeInv3b_p7
+import SSV.Proofs.RelayLifeInv3b_p8
 namespace SSV.RelayLife
 variable (cfg : Cfg)
-
-theorem inv3b_arrive (s s' : State) (c : Nat) (h1 : Inv1 s) (ha : Inv3a s) (hd : Inv3d s) (hI : Inv3b cfg s) (h : step cfg s (.arrive c) = some s') : Inv3b cfg s' := by
-  have a5 := h1.tab
-  have a6 := h1.inTab
-  clear h1
-  obtain ⟨k1,u2,u3,g5,gp⟩ := ha
-  obtain ⟨u1⟩ := hd
-  obtain ⟨e0,e1,e2,g9⟩ := hI
-  simp only [step] at h
-  (repeat' split at h) <;> close_case3
-
-theorem inv3b_rLock (s s' : State)  (h1 : Inv1 s) (ha : Inv3a s) (hd : Inv3d s) (hI : Inv3b cfg s) (h : step cfg s (.rLock ) = some s') : Inv3b cfg s' := by
-  have a5 := h1.tab
-  have a6 := h1.inTab
-  clear h1
-  obtain ⟨k1,u2,u3,g5,gp⟩ := ha
-  obtain ⟨u1⟩ := hd
-  obtain ⟨e0,e1,e2,g9⟩ := hI
-  simp only [step] at h
-  (repeat' split at h) <;> close_case3
-
-set_option maxHeartbeats 1600000 in
-theorem inv3b_rProc (s s' : State) (ok : Bool) (h1 : Inv1 s) (ha : Inv3a s) (hd : Inv3d s) (hI : Inv3b cfg s) (h : step cfg s (.rProc ok) = some s') : Inv3b cfg s' := by
-  have a5 := h1.tab
-  have a6 := h1.inTab
-  clear h1
-  obtain ⟨k1,u2,u3,g5,gp⟩ := ha
-  obtain ⟨u1⟩ := hd
-  obtain ⟨e0,e1,e2,g9⟩ := hI
-  simp only [step] at h
-  (repeat' split at h) <;> close_case3
-
-theorem inv3b_rMore (s s' : State) (c : Nat) (h1 : Inv1 s) (ha : Inv3a s) (hd : Inv3d s) (hI : Inv3b cfg s) (h : step cfg s (.rMore c) = some s') : Inv3b cfg s' := by
-  have a5 := h1.tab
-  have a6 := h1.inTab
-  clear h1
-  obtain ⟨k1,u2,u3,g5,gp⟩ := ha
-  obtain ⟨u1⟩ := hd
-  obtain ⟨e0,e1,e2,g9⟩ := hI
-  simp only [step] at h
-  (repeat' split at h) <;> close_case3
-
-theorem inv3b_rUnlock (s s' : State)  (h1 : Inv1 s) (ha : Inv3a s) (hd : Inv3d s) (hI : Inv3b cfg s) (h : step cfg s (.rUnlock ) = some s') : Inv3b cfg s' := by
-  have a5 := h1.tab
-  have a6 := h1.inTab
-  clear h1
-  obtain ⟨k1,u2,u3,g5,gp⟩ := ha
-  obtain ⟨u1⟩ := hd
-  obtain ⟨e0,e1,e2,g9⟩ := hI
-  simp only [step] at h
-  (repeat' split at h) <;> close_case3
-
-theorem inv3b_rExit (s s' : State)  (h1 : Inv1 s) (ha : Inv3a s) (hd : Inv3d s) (hI : Inv3b cfg s) (h : step cfg s (.rExit ) = some s') : Inv3b cfg s' := by
-  have a5 := h1.tab
-  have a6 := h1.inTab
-  clear h1
-  obtain ⟨k1,u2,u3,g5,gp⟩ := ha
-  obtain ⟨u1⟩ := hd
-  obtain ⟨e0,e1,e2,g9⟩ := hI
-  simp only [step] at h
-  (repeat' split at h) <;> close_case3
-
-set_option maxHeartbeats 1600000 in
-theorem inv3b_init (s s' : State) (i : Nat) (ok : Bool) (h1 : Inv1 s) (ha : Inv3a s) (hd : Inv3d s) (hI : Inv3b cfg s) (h : step cfg s (.init i ok) = some s') : Inv3b cfg s' := by
-  have a5 := h1.tab
-  have a6 := h1.inTab
-  clear h1
-  obtain ⟨k1,u2,u3,g5,gp⟩ := ha
-  obtain ⟨u1⟩ := hd
-  obtain ⟨e0,e1,e2,g9⟩ := hI
-  simp only [step] at h
-  (repeat' split at h) <;> close_case3
-
-theorem inv3b_dTimeout (s s' : State) (i : Nat) (h1 : Inv1 s) (ha : Inv3a s) (hd : Inv3d s) (hI : Inv3b cfg s) (h : step cfg s (.dTimeout i) = some s') : Inv3b cfg s' := by
-  have a5 := h1.tab
-  have a6 := h1.inTab
-  clear h1
-  obtain ⟨k1,u2,u3,g5,gp⟩ := ha
-  obtain ⟨u1⟩ := hd
-  obtain ⟨e0,e1,e2,g9⟩ := hI
-  simp only [step] at h
-  (repeat' split at h) <;> close_case3
-
-theorem inv3b_dPacket (s s' : State) (i : Nat) (h1 : Inv1 s) (ha : Inv3a s) (hd : Inv3d s) (hI : Inv3b cfg s) (h : step cfg s (.dPacket i) = some s') : Inv3b cfg s' := by
-  have a5 := h1.tab
-  have a6 := h1.inTab
-  clear h1
-  obtain ⟨k1,u2,u3,g5,gp⟩ := ha
-  obtain ⟨u1⟩ := hd
-  obtain ⟨e0,e1,e2,g9⟩ := hI
-  simp only [step] at h
-  (repeat' split at h) <;> close_case3
-
-theorem inv3b_dSend (s s' : State) (i : Nat) (h1 : Inv1 s) (ha : Inv3a s) (hd : Inv3d s) (hI : Inv3b cfg s) (h : step cfg s (.dSend i) = some s') : Inv3b cfg s' := by
-  have a5 := h1.tab
-  have a6 := h1.inTab
-  clear h1
-  obtain ⟨k1,u2,u3,g5,gp⟩ := ha
-  obtain ⟨u1⟩ := hd
-  obtain ⟨e0,e1,e2,g9⟩ := hI
-  simp only [step] at h
-  (repeat' split at h) <;> close_case3
-
-theorem inv3b_uFail (s s' : State) (i : Nat) (h1 : Inv1 s) (ha : Inv3a s) (hd : Inv3d s) (hI : Inv3b cfg s) (h : step cfg s (.uFail i) = some s') : Inv3b cfg s' := by
-  have a5 := h1.tab
-  have a6 := h1.inTab
-  clear h1
-  obtain ⟨k1,u2,u3,g5,gp⟩ := ha
-  obtain ⟨u1⟩ := hd
-  obtain ⟨e0,e1,e2,g9⟩ := hI
-  simp only [step] at h
-  (repeat' split at h) <;> close_case3
-
-set_option maxHeartbeats 1600000 in
-theorem inv3b_cleanup (s s' : State) (i : Nat) (h1 : Inv1 s) (ha : Inv3a s) (hd : Inv3d s) (hI : Inv3b cfg s) (h : step cfg s (.cleanup i) = some s') : Inv3b cfg s' := by
-  have a5 := h1.tab
-  have a6 := h1.inTab
-  clear h1
-  obtain ⟨k1,u2,u3,g5,gp⟩ := ha
-  obtain ⟨u1⟩ := hd
-  obtain ⟨e0,e1,e2,g9⟩ := hI
-  simp only [step] at h
-  (repeat' split at h) <;> close_case3
-
-theorem inv3b_uRecv (s s' : State) (i : Nat) (k : Nat) (h1 : Inv1 s) (ha : Inv3a s) (hd : Inv3d s) (hI : Inv3b cfg s) (h : step cfg s (.uRecv i k) = some s') : Inv3b cfg s' := by
-  have a5 := h1.tab
-  have a6 := h1.inTab
-  clear h1
-  obtain ⟨k1,u2,u3,g5,gp⟩ := ha
-  obtain ⟨u1⟩ := hd
-  obtain ⟨e0,e1,e2,g9⟩ := hI
-  simp only [step] at h
-  (repeat' split at h) <;> close_case3
-
-set_option maxHeartbeats 1600000 in
-theorem inv3b_uStep (s s' : State) (i : Nat) (h1 : Inv1 s) (ha : Inv3a s) (hd : Inv3d s) (hI : Inv3b cfg s) (h : step cfg s (.uStep i) = some s') : Inv3b cfg s' := by
-  have a5 := h1.tab
-  have a6 := h1.inTab
-  clear h1
-  obtain ⟨k1,u2,u3,g5,gp⟩ := ha
-  obtain ⟨u1⟩ := hd
-  obtain ⟨e0,e1,e2,g9⟩ := hI
-  simp only [step] at h
-  (repeat' split at h) <;> close_case3
-
-theorem inv3b_timer (s s' : State) (i : Nat) (h1 : Inv1 s) (ha : Inv3a s) (hd : Inv3d s) (hI : Inv3b cfg s) (h : step cfg s (.timer i) = some s') : Inv3b cfg s' := by
-  have a5 := h1.tab
-  have a6 := h1.inTab
-  clear h1
-  obtain ⟨k1,u2,u3,g5,gp⟩ := ha
-  obtain ⟨u1⟩ := hd
-  obtain ⟨e0,e1,e2,g9⟩ := hI
-  simp only [step] at h
-  (repeat' split at h) <;> close_case3
-
-theorem inv3b_stopCall (s s' : State)  (h1 : Inv1 s) (ha : Inv3a s) (hd : Inv3d s) (hI : Inv3b cfg s) (h : step cfg s (.stopCall ) = some s') : Inv3b cfg s' := by
-  have a5 := h1.tab
-  have a6 := h1.inTab
-  clear h1
-  obtain ⟨k1,u2,u3,g5,gp⟩ := ha
-  obtain ⟨u1⟩ := hd
-  obtain ⟨e0,e1,e2,g9⟩ := hI
-  simp only [step] at h
-  (repeat' split at h) <;> close_case3
-
-set_option maxHeartbeats 1600000 in
-theorem inv3b_stop (s s' : State)  (h1 : Inv1 s) (ha : Inv3a s) (hd : Inv3d s) (hI : Inv3b cfg s) (h : step cfg s (.stop ) = some s') : Inv3b cfg s' := by
-  have a5 := h1.tab
-  have a6 := h1.inTab
-  clear h1
-  obtain ⟨k1,u2,u3,g5,gp⟩ := ha
-  obtain ⟨u1⟩ := hd
-  obtain ⟨e0,e1,e2,g9⟩ := hI
-  simp only [step] at h
-  (repeat' split at h) <;> close_case3
-
-set_option maxHeartbeats 1600000 in
-theorem inv3b_stopVisit (s s' : State) (i : Nat) (h1 : Inv1 s) (ha : Inv3a s) (hd : Inv3d s) (hI : Inv3b cfg s) (h : step cfg s (.stopVisit i) = some s') : Inv3b cfg s' := by
-  have a5 := h1.tab
-  have a6 := h1.inTab
-  clear h1
-  obtain ⟨k1,u2,u3,g5,gp⟩ := ha
-  obtain ⟨u1⟩ := hd
-  obtain ⟨e0,e1,e2,g9⟩ := hI
-  simp only [step] at h
-  (repeat' split at h) <;> close_case3
 
 theorem inv3b_step (s s' : State) (e : Ev) (h1 : Inv1 s) (ha : Inv3a s) (hd : Inv3d s) (hI : Inv3b cfg s) (h : step cfg s e = some s') : Inv3b cfg s' := by
   cases e with
